@@ -1,4 +1,5 @@
 import CppUModel.Proofs.Runner
+import CppUModel.Proofs.RunnerCode
 /-!
 # C01 — a failing check always fails the run: lifecycle, failure count, exit value
 
@@ -821,6 +822,176 @@ example :
       (fun o => ((recordsOf o.evs).map (fun r => (r.file, r.line, r.msg)), o.reps.map (fun r => (r.failureCount, r.checkCount)),
                  o.ret, marksIn o.evs))
     == some ([("h.c", 7, "leak"), ("f.cpp", 10, "Failed in separate process")], [(1, 0)], 1, [(.setup, 1)])) = true := by
+  decide
+
+/-! ## the regenerated code of the runner (Gen/RunnerCode.lean) is the model the theorems above are about -/
+
+/-- **runOneTest_is_the_source**: `UtestShell::runOneTest` around the interpreter of the REGENERATED statement
+    lists of `runOneTestInCurrentProcess` and `Utest::run` (try blocks, statements, catch clauses, both
+    build variants) is the hand-written `runOneTest` — for every program, plugin chain, state. -/
+theorem runOneTestGen_eq (cfg : Cfg) (plugins : List Plugin) (t : Test) (st : TSt) :
+    runOneTestGen cfg plugins t st = runOneTest cfg plugins t st := by
+  unfold runOneTestGen runOneTest
+  have h : runOneTestInCurrentProcessGen cfg plugins t = runOneTestInCurrentProcess cfg plugins t :=
+    funext (runOneTestInCurrentProcessGen_eq cfg plugins t)
+  rw [h]
+
+/-- **regenerated_test_outcome**: the lifecycle / depth / failure theorems hold of the code as the source has
+    it at check time: the interpreter of the regenerated statements never faults, restores the setjmp
+    depth and the current test, and does exactly what the property demands of one test. -/
+theorem regenerated_test_outcome (cfg : Cfg) (plugins : List Plugin) (t : Test) (st : TSt)
+    (hr : cfg.rethrow = false) (h0 : 0 ≤ st.depth) (h1 : st.depth + 2 ≤ Int.ofNat Gen.Runner.jmpBufLen) :
+    ∃ j, runOneTestGen cfg plugins t st = .ok j ∧ TestOutcome cfg plugins t st j ∧
+      j.st.depth = st.depth ∧ j.st.current = st.current ∧ j.esc = none := by
+  obtain ⟨j, hj, o⟩ := test_outcome cfg plugins t st hr h0 h1
+  exact ⟨j, by rw [runOneTestGen_eq]; exact hj, o, o.depth, o.current, o.esc⟩
+
+/-- every catch clause of both try blocks of `Utest::run` restores the jump buffer exactly once, and the
+    two clauses for std / foreign exceptions record the failure before they may rethrow -/
+theorem catch_clauses_restore_once :
+    ∀ b ∈ Gen.Runner.utestRunExcCode, ∀ c ∈ b.catches,
+      c.ops.count .restore = 1 ∧
+      (c.pat ≠ .failed → c.ops.head? = some (.addFailure (c.pat == .std)) ∧ c.ops.getLast? = some .rethrowIfMode) := by
+  decide
+
+/-- handler selection: with the regenerated clauses a failed check's exception records nothing more, a
+    std exception is reported with its type and text, anything else as unknown -/
+theorem handler_selection :
+    ∀ b ∈ Gen.Runner.utestRunExcCode,
+      (findCatch b.catches .failed).map (·.ops) = some [.restore] ∧
+      (findCatch b.catches .std).map (·.ops) = some [.addFailure true, .restore, .rethrowIfMode] ∧
+      (findCatch b.catches .other).map (·.ops) = some [.addFailure false, .restore, .rethrowIfMode] := by
+  decide
+
+/-- the interpreter is sensitive to what it is given: the same code with the `RestoreJumpBuffer` call of
+    the `CppUTestFailedException` clause removed leaves the depth one too high after a failing setup -/
+example :
+    let mutant : List Gen.Runner.TryBlock := Gen.Runner.utestRunExcCode.map (fun b =>
+      { b with catches := b.catches.map (fun c => if c.pat = .failed then { c with ops := [] } else c) })
+    ((execBlocks (exCfg true) exTest mutant ⟨⟨{}, false, 1, some "n"⟩, [], false⟩).toOption.map (·.st.depth),
+     (utestRunGen (exCfg true) exTest ⟨{}, false, 1, some "n"⟩).toOption.map (·.st.depth)) = (some 2, some 1) := by
+  decide
+
+/-- the shapes of the loop-free shell functions the model mirrors: a failure is recorded BEFORE the test
+    is left (`failWith`), recording sets the failed flag and then counts/prints (`addFailure`),
+    `fail` counts the check first, `runOneTest` clears the flag and counts the run before it calls
+    `PlatformSpecificSetJmp`, the crashing terminators (`-f`) crash before they would leave the test —
+    so with `-f` the failure has been printed when the process dies -/
+theorem shell_statement_orders :
+    Gen.Runner.failWithCode = [.addFailure, .exitCurrentTest] ∧
+    Gen.Runner.shellAddFailureCode = [.setFailed, .resultAddFailure] ∧
+    Gen.Runner.failCode = [.countCheck, .failWith] ∧
+    Gen.Runner.exitTestCode = [.exitCurrentTest] ∧
+    Gen.Runner.runOneTestCode = [.clearFailed, .countRun, .mkInfo, .setJmpByMode] ∧
+    Gen.Runner.terminatorWithoutExceptionsCode = [.longJmp] ∧
+    Gen.Runner.crashingTerminatorCode = [.crash, .normalExit] ∧
+    Gen.Runner.crashingTerminatorWithoutExceptionsCode = [.crash, .longJmpExit] := by
+  decide
+
+/-- **printFailure_is_the_source**: the strings `TestOutput::printFailure` hands to `print`, computed from
+    the regenerated print sequences (location format, " Failure in ", message, one- and two-location
+    layout, `isOutsideTestFile`, `isInHelperFunction`), are the model's `failureToks` in the eclipse
+    environment (what the Gcc platform detects) and `failureToksVS` in the Visual Studio environment. -/
+theorem printFailure_is_the_source (r : FailRec) :
+    failureToksGen false r = failureToks r ∧ failureToksGen true r = failureToksVS r ∧
+    envIsVisualStudio none = false ∧ envIsVisualStudio (some true) = true :=
+  ⟨failureToksGen_eclipse r, failureToksGen_vs r, by decide, by decide⟩
+
+/-- **record_read_back_vs**: in the Visual Studio environment too, whatever is printed before and after it,
+    the strings of one failure record are read back as exactly that record with its own file and line. -/
+theorem record_read_back_vs (r : FailRec) (hc : r.cleanVS) (before after : List String) :
+    ∃ w, scanFromVS before (failureToksGen true r ++ after) = r.printed :: scanFromVS w after ∧
+      r.printed.file = r.file ∧ r.printed.line = toString r.line ∧ r.printed.testName = r.testName ∧
+      r.printed.msg = r.msg := by
+  rw [failureToksGen_vs]
+  exact ⟨_, scanFromVS_failureToksVS r hc before after, rfl, rfl, rfl, rfl⟩
+
+/-- the two formats differ in the two separator strings only: same length, same file / line / name / message -/
+theorem formats_differ_in_separators_only (r : FailRec) :
+    (failureToksVS r).length = (failureToks r).length ∧
+    (failureToksVS r).filter (fun s => s != "(" && s != "):" && s != ":") =
+      (failureToks r).filter (fun s => s != "(" && s != "):" && s != ":") := by
+  unfold failureToksVS failureToks
+  cases r.twoLocations <;> simp [locToksVS, locToks, List.filter_cons]
+
+/-- a failure outside the test's file, Visual Studio format -/
+example :
+    failureToksGen true ⟨"TEST(g, n)", "t.cpp", 10, "h.c", 7, "boom"⟩ =
+      ["\n", "t.cpp", "(", "10", "):", " error:", " Failure in ", "TEST(g, n)", "\n", "h.c", "(", "7", "):", " error:",
+       "\n", "\t", "boom", "\n\n"] ∧
+    scanFailuresVS (failureToksGen true ⟨"TEST(g, n)", "t.cpp", 10, "h.c", 7, "boom"⟩) =
+      [⟨"h.c", "7", "TEST(g, n)", "boom", some ("t.cpp", "10")⟩] := by
+  decide
+
+/-- **composite_forwards_once_to_each**: every callback `CompositeTestOutput` forwards reaches output one and
+    then output two, each exactly once (`-ojunit -v`: the JUnit writer and the console) — in particular
+    `printFailure`: each failure once per attached output. -/
+theorem composite_forwards_once_to_each :
+    (∀ e ∈ Gen.Runner.compositeReceivers, e.2 = [.one, .two]) ∧
+    (Gen.Runner.compositeReceivers.map (·.1)).contains "printFailure" = true ∧
+    (Gen.Runner.compositeReceivers.map (·.1)).contains "printTestsEnded" = true := by
+  decide
+
+/-- **printed_text_survives_process_end**: `ConsoleTestOutput::printBuffer` (regenerated statement list: write,
+    then flush) leaves nothing in the stdio buffer, so whatever a process has printed is on the file
+    descriptor even if the process then ends with `_exit` — as every child of `-p` does — or is killed by a
+    later test: a failure that was printed stays printed. -/
+theorem printed_text_survives_process_end (xs : List String) :
+    (consolePrintAll {} xs).afterExit = xs ∧ (consolePrintAll {} xs).pending = [] := by
+  have := printed_text_survives_exit {} rfl xs
+  simpa using this
+
+/-- the same for a child forked with an empty buffer that prints the text of a test's events -/
+theorem child_failures_reach_the_console (parent : Stream) (hp : parent.pending = []) (c : Bool) (evs : List Ev) :
+    (consolePrintAll parent (toksOf c evs)).afterExit = parent.visible ++ toksOf c evs :=
+  (printed_text_survives_exit parent hp _).1
+
+/-- why every print must flush: through a `printBuffer` that only writes, a process that `_exit`s shows nothing -/
+theorem flush_is_needed (xs : List String) :
+    (xs.foldl (fun s x => execPrintBuffer Gen.Runner.consoleFlushCode x [.fputs] s) ({} : Stream)).afterExit = [] :=
+  (unflushed_text_is_lost xs).1
+
+example : (consolePrintAll {} ["a", "b"]).afterExit = ["a", "b"] ∧
+    (["a", "b"].foldl (fun s x => execPrintBuffer Gen.Runner.consoleFlushCode x [.fputs] s) ({} : Stream)).afterExit = [] := by
+  decide
+
+/-- **console_reader_full_vs**: in the Visual Studio working environment, reading the WHOLE console text of a run
+    yields exactly the failing events of every repetition, in order, each once, with its own file and line
+    (`file(line): error:` form); in the eclipse environment the text is the one `console_reader_full` reads. -/
+theorem console_reader_full_vs (cfg : Cfg) (plugins : List Plugin) (ts : List Test) (n : Nat)
+    (hr : cfg.rethrow = false) (hclean : ∀ r ∈ expectedRecords cfg plugins ts, r.cleanVS) :
+    ∃ o, runAllTests cfg plugins ts n 0 = .ok o ∧
+      scanFailuresVS (toksOfEnv true cfg.color o.evs) =
+        ((List.replicate n (expectedRecords cfg plugins ts)).flatten).map FailRec.printed ∧
+      toksOfEnv false cfg.color o.evs = toksOf cfg.color o.evs := by
+  obtain ⟨o, ho, oo⟩ := run_outcome_top cfg plugins ts n hr
+  have hce : CleanEvsVS o.evs := by
+    refine ⟨oo.safe, ?_⟩
+    rw [oo.records]
+    intro r hrm
+    simp only [flattenRep, List.mem_flatten, List.mem_replicate] at hrm
+    obtain ⟨l, ⟨_, rfl⟩, hrl⟩ := hrm
+    exact hclean r hrl
+  refine ⟨o, ho, ?_, toksOfEnv_eclipse cfg.color o.evs⟩
+  unfold scanFailuresVS
+  rw [scanFromVS_toksOfEnv cfg.color o.evs [] hce, oo.records]
+  rfl
+
+/-- **composite_each_output_gets_every_callback**: whatever sequence of (forwarded) callbacks the runner makes on a
+    `CompositeTestOutput`, each of its two outputs receives exactly that sequence, in order — in particular
+    every `printFailure` once per attached output and every `printTestsEnded` once. -/
+theorem composite_each_output_gets_every_callback {α} (who : Gen.Runner.Receiver) (calls : List (String × α))
+    (hk : ∀ c ∈ calls, c.1 ∈ ["printTestsStarted", "printTestsEnded", "printCurrentTestStarted", "printCurrentTestEnded",
+      "printCurrentGroupStarted", "printCurrentGroupEnded", "verbose", "color", "printBuffer", "print", "printDouble",
+      "printFailure", "setProgressIndicator", "printVeryVerbose", "flush"]) :
+    receivedBy who (compositeForward calls) = calls :=
+  receivedBy_forward who calls (fun c hc => receiversOf_known c.1 (hk c hc))
+
+/-- three failures and a summary through the composite: each output sees the four callbacks once, in order -/
+example :
+    let calls : List (String × Nat) := [("printFailure", 1), ("printFailure", 2), ("printTestsEnded", 0), ("printFailure", 3)]
+    receivedBy .one (compositeForward calls) = calls ∧ receivedBy .two (compositeForward calls) = calls ∧
+    (compositeForward calls).length = 8 := by
   decide
 
 end Runner
